@@ -311,8 +311,16 @@ where
             } else if implicit_rule.as_ref() == Some(astrulename) {
                 // Add the implicit rule: ~: "IMPLICIT_TOKEN_1" ~ | ... | "IMPLICIT_TOKEN_N" ~ | ;
                 let implicit_prods = &mut rules_prods[usize::from(rule_map[astrulename])];
-                // Add a production for each implicit token
-                for t in ast.implicit_tokens.as_ref().unwrap().keys() {
+                // Add a production for each implicit token (in token order: the map they are
+                // stored in iterates in a different order from run to run)
+                let mut implicit_tokens = ast
+                    .implicit_tokens
+                    .as_ref()
+                    .unwrap()
+                    .keys()
+                    .collect::<Vec<_>>();
+                implicit_tokens.sort_unstable_by_key(|t| token_map[*t]);
+                for t in implicit_tokens {
                     implicit_prods.push(PIdx(prods.len().as_()));
                     prods.push(Some(vec![Symbol::Token(token_map[t]), Symbol::Rule(ridx)]));
                     prod_precs.push(Some(None));
